@@ -492,6 +492,28 @@ def _exec_flags(doc, res):
                                                             sorted(m.name for m in want)))
             break
         res.stats['flags.sets_checked'] += 1
+        # ... for every flag word, whatever a caller did with the collection an earlier parse returned
+        parsed = parser['f']
+        if isinstance(parsed, (set, list)):
+            try:
+                if isinstance(parsed, set):
+                    (parsed.clear if rng.random() < 0.5 or not usable else lambda: parsed.symmetric_difference_update(usable[:2]))()
+                else:
+                    del parsed[:]
+            except Exception:  # an immutable result cannot be edited  # pylint: disable=broad-except
+                pass
+            again = ParserBinary(expected, byte_order=order)
+            ok, _ = _guard(res, (PROPERTY, 'flags-parse-failed', flag_class.__name__, shift), 'and back',
+                           again.parse_numeric_flags, 'f', size, flag_class, shift_left=shift)
+            if not ok:
+                break
+            res.stats['probe.flag_word_parsed_again_after_editing_the_first_result'] += 1
+            if set(again['f']) != want:
+                res.violation((PROPERTY, 'flags-parse-depends-on-earlier-result', flag_class.__name__, shift), 'and back',
+                              '%s parsed to %s after the set returned by an earlier parse of the same word was edited, '
+                              'expected %s' % (expected.hex(), sorted(m.name for m in again['f']),
+                                               sorted(m.name for m in want)))
+                break
         # a member that does not fit the field (after the shift) is rejected, never silently dropped
         too_big = [m for m in members if (int(m) >> shift) >= 2 ** (8 * size)]
         if too_big:
@@ -587,6 +609,34 @@ def _exec_mpint(doc, res):
                 res.violation((PROPERTY, 'fixed-mpint-round-trip',), 'fixed-length mpints round-trip', '%d bits, %d bytes' % (value.bit_length(), length))
                 break
             res.stats['mpint.fixed_checked'] += 1
+            # the same under the other byte orders a composer / parser can be created with (the library's own tests
+            # pin least-significant-octet-first output for the little-endian composer)
+            from cryptoparser.common.parse import ByteOrder
+            order = rng.choice(list(ByteOrder))
+            ref = _ref_order(order.name)
+            composer = ComposerBinary(byte_order=order)
+            ok, _ = _guard(res, (PROPERTY, 'fixed-mpint-failed', order.name), 'fixed-length mpints are composed',
+                           composer.compose_mpint, value, length)
+            if not ok:
+                break
+            ordered = bytes(composer.composed_bytes)
+            if ordered != value.to_bytes(length, ref):
+                res.violation((PROPERTY, 'fixed-mpint-differs', ref), 'fixed-length mpints are exact integers in the chosen byte order',
+                              '%s composer, %d-bit value in %d bytes: %s..., expected %s...' % (
+                                  order.name, value.bit_length(), length, ordered[:12].hex(), value.to_bytes(length, ref)[:12].hex()))
+                break
+            parser = ParserBinary(value.to_bytes(length, ref) + b'\x01', byte_order=order)
+            ok, _ = _guard(res, (PROPERTY, 'fixed-mpint-failed', 'parse', order.name), 'fixed-length mpints round-trip',
+                           parser.parse_mpint, 'm', length)
+            if not ok:
+                break
+            if parser['m'] != value or parser.parsed_length != length:
+                res.violation((PROPERTY, 'fixed-mpint-round-trip', ref), 'fixed-length mpints round-trip',
+                              '%s parser: %d-bit value in %d bytes (%s...) parsed back as a %d-bit value' % (
+                                  order.name, value.bit_length(), length, value.to_bytes(length, ref)[:12].hex(),
+                                  parser['m'].bit_length()))
+                break
+            res.stats['mpint.fixed_checked_in_byte_order.' + ref] += 1
             # ... and never truncate: a field too short for the value is refused with an invalid-value error
             needed = max(1, (value.bit_length() + 7) // 8)
             if needed > 1:
